@@ -11,7 +11,7 @@ def shards_for(tier, seed, salt, profiles, quick_per=6, thorough_per=70, n=16):
     per = quick_per if tier == "quick" else thorough_per
     out = []
     for s in range(n):
-        out.append({"seed": seed * 7919 + s * 13 + salt, "n": per, "profile": profiles[s % len(profiles)],
+        out.append({"seed": seed * 7919 + s * 13 + salt, "n": per, "profile": profiles[s % len(profiles)], "shard_index": s,
                     "pure_python": (s % 8 == 7), "timeout_s": 3300})
     return out
 
@@ -32,9 +32,18 @@ def run_group_shard(params, judge_name, nontrivial_fn, sample_fn=None, force=Non
     for i in range(params["n"]):
         P = group_sim.gen_params(rng, i, params.get("tier", "quick"), params["profile"], force=force or params.get("force"))
         cases.append(P)
+    if params.get("shard_index", 0) == 0:
+        # histories kept from earlier runs (witnesses of repaired defects / of false alarms that were corrected)
+        import json as _json
+        import os as _os
+        with open(_os.path.join(_os.path.dirname(_os.path.abspath(__file__)), "group_pinned.json")) as f:
+            for ent in _json.load(f):
+                if judge_name in ent["judges"]:
+                    cases.append(dict(ent["params"], pinned=ent["name"]))
+                    res["counters"]["pinned_histories"] = res["counters"].get("pinned_histories", 0) + 1
     for P in cases:
         variants = [P]
-        if crash_points:
+        if crash_points and not P.get("pinned"):
             variants = crash_points(P, rng, group_sim)
         for Pv in variants:
             H = group_sim.run_history(Pv)
